@@ -48,6 +48,7 @@ struct IMachine {
     virtual int state_by_id(int mach, int id) const { (void)mach; (void)id; return -2; }
     virtual void clear_queue(int which) { (void)which; }
     virtual void post(const Post& p) = 0;          // submission to the root from inside a behaviour
+    virtual long live_tracked() const { return -1; }   // model: pending occurrences of tracked event classes
     virtual int state_data(int gstate) const { (void)gstate; return 0; }
     virtual void set_state_data(int gstate, int v) { (void)gstate; (void)v; }
 };
